@@ -6,12 +6,15 @@ import (
 	"fmt"
 	"net"
 	"os"
-	"path/filepath"
 	"os/exec"
+	"path/filepath"
 	"sort"
+	"strconv"
 	"strings"
+	"sync"
 	"syscall"
 	"testing"
+	"time"
 
 	"pgregory.net/rapid"
 	"tkestack.io/galaxy/pkg/api/k8s"
@@ -52,13 +55,15 @@ type pmPod struct {
 }
 
 type c14Case struct {
-	Pods        []pmPod `json:"pods"`
-	Others      []pmPod `json:"others"`       // pods whose mappings exist beforehand and must survive Setup/Clean of a pod
-	Foreign     int     `json:"foreign"`      // number of foreign chains/rules in the nat table
-	Stale       int     `json:"stale"`        // number of stale KUBE-HP-* chains with dangling KUBE-HOSTPORTS rules
-	Target      int     `json:"target"`       // pod used for the Setup/Clean inverse law
-	Repeat      int     `json:"repeat"`       // >= 0: that pod (random ports only) is set up a second time without a teardown in between
-	OccupyIndex int     `json:"occupy_index"` // index of the explicit port the harness occupies for the failure path (-1 none)
+	Pods    []pmPod `json:"pods"`
+	Others  []pmPod `json:"others"`  // pods whose mappings exist beforehand and must survive Setup/Clean of a pod
+	Foreign int     `json:"foreign"` // number of foreign chains/rules in the nat table
+	Stale   int     `json:"stale"`   // number of stale KUBE-HP-* chains with dangling KUBE-HOSTPORTS rules
+	Target  int     `json:"target"`  // pod used for the Setup/Clean inverse law
+	// Overlap >= 0: the teardown of that pod (random ports only) is overlapped by the set-up of its successor under the same name
+	Overlap     int `json:"overlap,omitempty"`
+	Repeat      int `json:"repeat"`       // >= 0: that pod (random ports only) is set up a second time without a teardown in between
+	OccupyIndex int `json:"occupy_index"` // index of the explicit port the harness occupies for the failure path (-1 none)
 	// Galaxy != nil: the case is a request history against the galaxy daemon (c14g_test.go) instead of calls of the handler
 	Galaxy *c14gCase `json:"galaxy,omitempty"`
 }
@@ -91,7 +96,7 @@ func haveFakeCNI() bool {
 
 func genC14() *rapid.Generator[c14Case] {
 	return rapid.Custom(func(t *rapid.T) c14Case {
-		c := c14Case{OccupyIndex: -1, Repeat: -1}
+		c := c14Case{OccupyIndex: -1, Repeat: -1, Overlap: -1}
 		if haveFakeCNI() && rapid.IntRange(0, 2).Draw(t, "level") == 0 {
 			// a third of the cases runs against the daemon's request path
 			c.Galaxy = genC14G(t)
@@ -99,6 +104,9 @@ func genC14() *rapid.Generator[c14Case] {
 		}
 		if rapid.IntRange(0, 2).Draw(t, "repeat") == 0 {
 			c.Repeat = rapid.IntRange(0, 5).Draw(t, "repeatPod")
+		}
+		if rapid.IntRange(0, 3).Draw(t, "overlap") == 0 {
+			c.Overlap = rapid.IntRange(0, 5).Draw(t, "overlapPod")
 		}
 		base := 0
 		n := rapid.IntRange(1, 6).Draw(t, "nPods")
@@ -473,7 +481,24 @@ func checkC14(c c14Case, r *vcore.Rec) *vcore.Failure {
 	}
 
 	// ---- release: after CloseHostports every handed-out port can be bound again
-	for _, hh := range helds {
+	overlapAt := -1
+	for k := 0; c.Overlap >= 0 && k < len(helds) && overlapAt < 0; k++ {
+		// the first pod with random ports only, looking from the drawn index
+		hi := (c.Overlap + k) % len(helds)
+		ok := len(c.Pods[hi].Ports) > 0
+		for _, pt := range c.Pods[hi].Ports {
+			ok = ok && pt.Host < 0
+		}
+		if ok {
+			overlapAt = hi
+		}
+	}
+	for hi, hh := range helds {
+		if hi == overlapAt {
+			if f := overlappedTeardown(h, c.Pods[hi], free, r); f != nil {
+				return f
+			}
+		}
 		h.CloseHostports(hh.pod)
 		for _, pt := range hh.ports {
 			if !canBind(pt.Protocol, int(pt.HostPort)) {
@@ -542,6 +567,110 @@ func checkC14(c c14Case, r *vcore.Rec) *vcore.Failure {
 		r.NonTrivial()
 	}
 	return nil
+}
+
+// overlappedTeardown: the DEL of a pod and the ADD of its successor under the same name (a statefulset pod re-created on the node,
+// kubelet repeating a DEL) overlap: as soon as the teardown has closed a socket the set-up of the successor starts in another
+// goroutine. Whatever the order in which the handler serialises the two, the successor's ports are held while it lives and free after
+// ITS teardown. (The wait inside the callback only gives the successor time to run; code that serialises both under the handler lock
+// simply lets it expire.)
+func overlappedTeardown(h *portmapping.PortMappingHandler, p pmPod, free []int, r *vcore.Rec) *vcore.Failure {
+	for _, pt := range p.Ports {
+		if pt.Host >= 0 {
+			return nil // an explicit port: the successor cannot open it while the predecessor holds it - not this scenario
+		}
+	}
+	if len(p.Ports) == 0 {
+		return nil
+	}
+	ports2 := k8sPorts(p, free)
+	done := make(chan error, 1)
+	var once sync.Once
+	if h.VerifAfterClose(p.Name, func() {
+		once.Do(func() {
+			fin := make(chan struct{})
+			go func() {
+				done <- h.OpenHostports(p.Name, true, ports2)
+				close(fin)
+			}()
+			select {
+			case <-fin:
+			case <-time.After(40 * time.Millisecond):
+			}
+		})
+	}) == 0 {
+		return nil
+	}
+	h.CloseHostports(p.Name)
+	if err := <-done; err != nil {
+		vcore.Extra("inconclusive_port_lost", 1)
+		h.CloseHostports(p.Name)
+		return nil
+	}
+	r.Class("teardown_overlapped_by_successor_setup")
+	for _, pt := range ports2 {
+		if pt.HostPort > 0 && canBind(pt.Protocol, int(pt.HostPort)) {
+			h.CloseHostports(p.Name)
+			return vcore.Failf("c14:not_held", "host port %d/%s of pod %s (set up while its predecessor was torn down) can be bound by another process",
+				pt.HostPort, pt.Protocol, p.Name)
+		}
+	}
+	h.CloseHostports(p.Name)
+	for _, pt := range ports2 {
+		if pt.HostPort > 0 && !canBind(pt.Protocol, int(pt.HostPort)) {
+			if h.VerifHeld(p.Name) == 0 && ownsPort(pt.Protocol, int(pt.HostPort)) {
+				return vcore.Failf("c14:not_released", "host port %d/%s of pod %s (set up while its predecessor was torn down) is still bound after the pod's "+
+					"own teardown, and the handler no longer knows the socket", pt.HostPort, pt.Protocol, p.Name)
+			}
+			vcore.Extra("inconclusive_port_taken_after_close", 1)
+		}
+	}
+	return nil
+}
+
+// ownsPort: a socket of THIS process is bound to the port (so it is not some other process that took a just-released port)
+func ownsPort(proto string, port int) bool {
+	data, err := os.ReadFile("/proc/net/" + strings.ToLower(proto))
+	if err != nil {
+		return false
+	}
+	inodes := map[string]bool{}
+	for _, line := range strings.Split(string(data), "\n")[1:] {
+		f := strings.Fields(line)
+		if len(f) < 10 {
+			continue
+		}
+		i := strings.LastIndex(f[1], ":")
+		if i < 0 {
+			continue
+		}
+		if v, err := strconv.ParseInt(f[1][i+1:], 16, 32); err == nil && int(v) == port {
+			inodes[f[9]] = true
+		}
+	}
+	for _, fam := range []string{"6"} {
+		if d6, err := os.ReadFile("/proc/net/" + strings.ToLower(proto) + fam); err == nil {
+			for _, line := range strings.Split(string(d6), "\n")[1:] {
+				f := strings.Fields(line)
+				if len(f) < 10 {
+					continue
+				}
+				i := strings.LastIndex(f[1], ":")
+				if v, err := strconv.ParseInt(f[1][i+1:], 16, 32); i >= 0 && err == nil && int(v) == port {
+					inodes[f[9]] = true
+				}
+			}
+		}
+	}
+	fds, _ := os.ReadDir("/proc/self/fd")
+	for _, fd := range fds {
+		if l, err := os.Readlink("/proc/self/fd/" + fd.Name()); err == nil && strings.HasPrefix(l, "socket:[") {
+			if inodes[strings.TrimSuffix(strings.TrimPrefix(l, "socket:["), "]")] {
+				return true
+			}
+		}
+	}
+	return false
 }
 
 func TestC14(t *testing.T) { vcore.Run(t, "C14", genC14(), checkC14) }
